@@ -126,8 +126,9 @@ async fn play(mut c: TlsPeerConn, script: PeerScript) {
     let _ = tokio::time::timeout(Duration::from_secs(40), async { while c.recv().await.is_some() {} }).await;
 }
 
-async fn scripted_case(script: PeerScript) -> (PeerScript, Result<(bool, u64, String), String>) {
-    let Some(mut peer) = netkit::start_tls_peer().await else { return (script, Err("cannot start TLS peer".into())) };
+/// front: 0 = Client::create_proxy_stream, 1 = through the SOCKS5 front-end, 2 = through the HTTP proxy (CONNECT)
+async fn scripted_case(script: PeerScript, front: u8) -> (PeerScript, u8, Result<(bool, u64, String), String>) {
+    let Some(mut peer) = netkit::start_tls_peer().await else { return (script, front, Err("cannot start TLS peer".into())) };
     let client = netkit::make_client(&peer.addr, netkit::PASSWORD, engine::default_padding(), netkit::quiet_pool());
     let s2 = script.clone();
     let player = tokio::spawn(async move {
@@ -137,20 +138,74 @@ async fn scripted_case(script: PeerScript) -> (PeerScript, Result<(bool, u64, St
         drop(peer);
     });
     let t0 = Instant::now();
-    let r = tokio::time::timeout(Duration::from_secs(50), client.create_proxy_stream(("192.0.2.7".to_string(), 80))).await;
-    let el = t0.elapsed().as_millis() as u64;
-    let out = match r {
-        Err(_) => Err("create_proxy_stream did not complete within 50 s".to_string()),
-        Ok(Ok(_)) => Ok((true, el, String::new())),
-        Ok(Err(e)) => Ok((false, el, e.to_string())),
+    let mut keep: Vec<tokio::task::JoinHandle<()>> = Vec::new();
+    let out = match front {
+        0 => {
+            let r = tokio::time::timeout(Duration::from_secs(50), client.create_proxy_stream(("192.0.2.7".to_string(), 80))).await;
+            let el = t0.elapsed().as_millis() as u64;
+            match r {
+                Err(_) => Err("create_proxy_stream did not complete within 50 s".to_string()),
+                Ok(Ok(_)) => Ok((true, el, String::new())),
+                Ok(Err(e)) => Ok((false, el, e.to_string())),
+            }
+        }
+        1 => match netkit::start_socks5(client.clone()).await {
+            None => Err("cannot start the SOCKS5 front-end".into()),
+            Some((addr, h)) => {
+                keep.push(h);
+                let t0 = Instant::now();
+                let r = netkit::socks5_connect(&addr, &netkit::SocksDest::V4("192.0.2.7".parse().unwrap(), 80), Duration::from_secs(50)).await;
+                let el = t0.elapsed().as_millis() as u64;
+                match r {
+                    Ok((_s, code)) => Ok((code == 0, el, format!("socks reply {code:#04x}"))),
+                    Err(e) if e.contains("timeout") => Err(format!("the SOCKS5 request did not complete within 50 s ({e})")),
+                    Err(e) => Ok((false, el, format!("connection closed without a reply ({e})"))),
+                }
+            }
+        },
+        _ => match netkit::start_http(client.clone()).await {
+            None => Err("cannot start the HTTP front-end".into()),
+            Some((addr, h)) => {
+                keep.push(h);
+                use tokio::io::{AsyncReadExt, AsyncWriteExt};
+                let t0 = Instant::now();
+                let r: Result<String, String> = async {
+                    let mut s = tokio::net::TcpStream::connect(&addr).await.map_err(|e| e.to_string())?;
+                    s.write_all(b"CONNECT 192.0.2.7:80 HTTP/1.1\r\nHost: 192.0.2.7:80\r\n\r\n").await.map_err(|e| e.to_string())?;
+                    let mut got = Vec::new();
+                    let mut buf = [0u8; 512];
+                    let _ = tokio::time::timeout(Duration::from_secs(50), async {
+                        while !got.windows(2).any(|w| w == b"\r\n") {
+                            match s.read(&mut buf).await {
+                                Ok(n) if n > 0 => got.extend_from_slice(&buf[..n]),
+                                _ => break,
+                            }
+                        }
+                    })
+                    .await
+                    .map_err(|_| "timeout".to_string())?;
+                    Ok(String::from_utf8_lossy(&got).lines().next().unwrap_or("").to_string())
+                }
+                .await;
+                let el = t0.elapsed().as_millis() as u64;
+                match r {
+                    Ok(line) => Ok((line.split_whitespace().nth(1) == Some("200"), el, format!("status line {line:?}"))),
+                    Err(e) if e.contains("timeout") => Err("the CONNECT request did not complete within 50 s".to_string()),
+                    Err(e) => Ok((false, el, format!("connection failed ({e})"))),
+                }
+            }
+        },
     };
+    for h in keep {
+        h.abort();
+    }
     client.stop_session_pool_cleanup().await;
     // a late answer must be harmless: give it time to arrive when the script sends one
     if matches!(script, PeerScript::OkAfter33s) {
         tokio::time::sleep(Duration::from_secs(5)).await;
     }
     player.abort();
-    (script, out)
+    (script, front, out)
 }
 
 // ---------------------------------------------------------------- (a) real stack
@@ -449,14 +504,29 @@ pub fn run(ctx: Ctx) -> Report {
         }
         let mut set = tokio::task::JoinSet::new();
         for s in scripts {
-            set.spawn(scripted_case(s));
+            // the front-ends must pass the same verdict on to the application (a failed open is never "succeeded")
+            for front in 0..3u8 {
+                if front > 0 && matches!(s, PeerScript::OkAfter33s) {
+                    continue;
+                }
+                set.spawn(scripted_case(s.clone(), front));
+            }
         }
-        while let Some(Ok((script, out))) = set.join_next().await {
-            let ex = expectation(&script);
-            rep.case(Some(hash_str(&format!("{:?}", script))));
+        while let Some(Ok((script, front, out))) = set.join_next().await {
+            let mut ex = expectation(&script);
+            if front > 0 {
+                // the application sees a reply code / status line, not the error text
+                ex.err_has = None;
+                ex.err_has_not = None;
+            }
+            let via = ["create_proxy_stream", "SOCKS5 front-end", "HTTP CONNECT front-end"][front as usize];
+            rep.case(Some(hash_str(&format!("{:?}/{front}", script))));
             rep.add("scripted_peer_cases", 1);
+            if front > 0 {
+                rep.add("scripted_peer_cases_through_a_front_end", 1);
+            }
             rep.seen("scripted_answers", format!("{:?}", script));
-            let case = json!({"kind": "c10-scripted", "script": format!("{:?}", script)});
+            let case = json!({"kind": "c10-scripted", "script": format!("{:?}", script), "via": via});
             match out {
                 Err(e) => {
                     if e.contains("did not complete") {
@@ -470,9 +540,9 @@ pub fn run(ctx: Ctx) -> Report {
                         rep.sample(json!({"script": format!("{:?}", script), "completed_ok": ok, "after_ms": el, "error": msg}));
                     }
                     if ok != ex.ok {
-                        rep.violate("open_verdict", &format!("{:?}", script), if ok { "success_without_server_success" } else { "failure_although_server_succeeded" }, format!("scripted answer {:?}: create_proxy_stream completed with {} after {el} ms ({msg})", script, if ok { "Ok" } else { "Err" }), case.clone());
+                        rep.violate("open_verdict", &format!("{:?}", script), if ok { "success_without_server_success" } else { "failure_although_server_succeeded" }, format!("scripted answer {:?}: {via} completed with {} after {el} ms ({msg})", script, if ok { "success" } else { "failure" }), case.clone());
                     } else if el < ex.lo.saturating_sub(300) || el > ex.hi {
-                        rep.violate("open_verdict", &format!("{:?}", script), "completed_at_wrong_time", format!("scripted answer {:?}: completed after {el} ms, expected within [{}, {}] ms ({msg})", script, ex.lo, ex.hi), case.clone());
+                        rep.violate("open_verdict", &format!("{:?}", script), "completed_at_wrong_time", format!("scripted answer {:?} via {via}: completed after {el} ms, expected within [{}, {}] ms ({msg})", script, ex.lo, ex.hi), case.clone());
                     } else if !ok {
                         if let Some(h) = ex.err_has
                             && !msg.to_lowercase().contains(h)
